@@ -268,8 +268,18 @@ func decodeGolden(v goldenValue, bz []byte) (diffs []string, hash []byte, err er
 		if err = d.UnmarshalBinary(bz); err == nil {
 			diffs, hash = diffSignedHeader(s, specOfSignedHeader(d)), d.Hash()
 			if s.Signed {
-				if e := d.ValidateBasic(); e != nil {
-					diffs = append(diffs, "ValidateBasic: "+e.Error())
+				// still-valid signature, decided directly under the harness's key over what the decoded header
+				// encodes to (the default signature payload); the node's ValidateBasic is consulted only when it
+				// accepts the same value freshly built
+				payload, perr := d.Header.MarshalBinary()
+				k := poolKeyFor(s.Signer)
+				ok, verr := k.Pub.Verify(payload, d.Signature)
+				if perr != nil || verr != nil || !ok {
+					diffs = append(diffs, fmt.Sprintf("signature no longer verifies under the signer's key over the decoded header (ok=%v encode-err=%v verify-err=%v)", ok, perr, verr))
+				} else if s.Real().ValidateBasic() == nil {
+					if e := d.ValidateBasic(); e != nil {
+						diffs = append(diffs, "ValidateBasic accepts the value built in memory and refuses the one decoded from the recorded bytes: "+e.Error())
+					}
 				}
 			}
 		}
@@ -448,8 +458,8 @@ func checkGolden(ctx context.Context, r *vk.Run) {
 				r.Hit("golden-hash")
 			}
 			if want.Validates != nil && (got.Validates == nil || *got.Validates != *want.Validates) {
-				violation(r, "signature", fmt.Sprintf("golden %s: ValidateBasic()==nil was %v when recorded", v.Name, *want.Validates), witness(got))
-				return
+				// what ValidateBasic accepts is not pinned by the statement: recorded, not judged
+				r.Count("observation:golden-ValidateBasic-outcome-differs-from-recorded", 1)
 			}
 			// the bytes recorded then still decode to the same value now
 			wb, _ := hex.DecodeString(want.Bytes)
@@ -477,10 +487,13 @@ func checkGolden(ctx context.Context, r *vk.Run) {
 			r.Eval("golden:"+v.Name, true, nil)
 		}()
 	}
-	// cache files written by the pinned tree must still load
+	// cache files written by the pinned tree: observation only. The statement names the cache file as a path of the
+	// round trip (judged format-agnostically in roundtrip.go through SaveToDisk/LoadFromDisk), not as a format that must
+	// stay readable; whether a file recorded from today's tree still loads is counted, never judged. A panic is.
 	sh, d := goldenCacheValues()
 	dir := world.TempDir(vk.Root(), "C12-goldencache-*")
 	defer os.RemoveAll(dir)
+	observed := map[string]string{}
 	for _, cf := range []struct {
 		name string
 		hexs string
@@ -489,7 +502,7 @@ func checkGolden(ctx context.Context, r *vk.Run) {
 		sub := filepath.Join(dir, cf.name)
 		_ = os.MkdirAll(sub, 0o755)
 		if err := os.WriteFile(filepath.Join(sub, cacheFiles[0]), raw, 0o644); err != nil {
-			r.Inconclusive("cannot write scratch cache file: " + err.Error())
+			observed[cf.name] = "cannot write scratch cache file: " + err.Error()
 			continue
 		}
 		func() {
@@ -498,38 +511,33 @@ func checkGolden(ctx context.Context, r *vk.Run) {
 					violation(r, "no-panic", fmt.Sprintf("loading the recorded %s cache file panics: %v", cf.name, p), cf)
 				}
 			}()
+			outcome := "loads with the recorded value"
 			if cf.name == "header" {
 				c := cache.NewCache[types.SignedHeader]()
 				if err := c.LoadFromDisk(sub); err != nil {
-					violation(r, "golden-decode", "recorded header cache file no longer loads: "+err.Error(), cf)
-					return
-				}
-				it := c.GetItem(7)
-				if it == nil {
-					violation(r, "golden-decode", "recorded header cache file loads without its item", cf)
-					return
-				}
-				if df := diffSignedHeader(sh, specOfSignedHeader(it)); len(df) > 0 || it.ValidateBasic() != nil {
-					violation(r, "golden-decode", fmt.Sprintf("recorded header cache file loads another value: %v (ValidateBasic=%v)", df, it.ValidateBasic()), cf)
-					return
+					outcome = "no longer loads: " + err.Error()
+				} else if it := c.GetItem(7); it == nil {
+					outcome = "loads without its item"
+				} else if df := diffSignedHeader(sh, specOfSignedHeader(it)); len(df) > 0 {
+					outcome = fmt.Sprintf("loads another value: %v", df)
 				}
 			} else {
 				c := cache.NewCache[types.Data]()
 				if err := c.LoadFromDisk(sub); err != nil {
-					violation(r, "golden-decode", "recorded data cache file no longer loads: "+err.Error(), cf)
-					return
-				}
-				it := c.GetItem(7)
-				if it == nil {
-					violation(r, "golden-decode", "recorded data cache file loads without its item", cf)
-					return
-				}
-				if df := diffData(d, specOfData(it)); len(df) > 0 {
-					violation(r, "golden-decode", fmt.Sprintf("recorded data cache file loads another value: %v", df), cf)
-					return
+					outcome = "no longer loads: " + err.Error()
+				} else if it := c.GetItem(7); it == nil {
+					outcome = "loads without its item"
+				} else if df := diffData(d, specOfData(it)); len(df) > 0 {
+					outcome = fmt.Sprintf("loads another value: %v", df)
 				}
 			}
-			r.Hit("golden-cachefile")
+			observed[cf.name] = outcome
+			if outcome == "loads with the recorded value" {
+				r.Count("observation:recorded-cache-file-still-loads", 1)
+			} else {
+				r.Count("observation:recorded-cache-file-does-not-load-as-recorded", 1)
+			}
 		}()
 	}
+	r.Set("observation_recorded_cache_files", observed)
 }
